@@ -20,7 +20,7 @@ TYPES = {'2dyn': (2, -1), '3f6': (3, 6), '1f12': (1, 12)}
 # shapes (segments, coefficients) per type: base, same, other segment count, other coefficient count, a second other coefficient count
 # (so that sequences move between two counts above the static-table limit 8 in both directions: 4->12->9, 9->12->9, 12->9)
 SHAPES = {'2dyn': [(2, 4), (2, 4), (3, 4), (2, 9), (2, 12)], '3f6': [(2, 6), (2, 6), (1, 6), (2, 4), (3, 5)], '1f12': [(2, 9), (2, 9), (3, 9), (2, 4), (2, 12)]}
-OPS = ['E0', 'E1', 'E2', 'Us', 'Ug', 'Uc', 'Ud', 'Ub', 'CP', 'MC', 'AS', 'MV', 'DV', 'EG', 'SA']
+OPS = ['E0', 'E1', 'E2', 'Us', 'Ui', 'Ug', 'Uc', 'Ud', 'Ub', 'CP', 'MC', 'AS', 'MV', 'DV', 'EG', 'SA']
 
 
 def bounds(tier):
@@ -94,6 +94,21 @@ class Gen:
         elif o in ('Us', 'Ug', 'Uc', 'Ud'):
             N, nc = sh[{'Us': 1, 'Ug': 2, 'Uc': 3, 'Ud': 4}[o]]
             u = self.fresh_data(N, nc)
+            self.emit_update('pp.update', 'P', u)
+            self.state['P'] = u
+        elif o == 'Ui':
+            # update that keeps shape, FIRST and LAST breakpoint (same variables) and replaces interior breakpoints and coefficients
+            cur = self.state['P']
+            if cur is None:
+                return
+            N, nc, b0, c0 = self.data[cur]
+            u = self.nupd
+            self.nupd += 1
+            lo, hi = s.shadows[b0[0]], s.shadows[b0[-1]]
+            cuts = sorted(self.rng.uniform(0.1, 0.9) for _ in range(N - 1))
+            b = [b0[0]] + [s.var('u%db%d' % (u, i + 1), round(lo + (hi - lo) * f, 4)) for i, f in enumerate(cuts)] + [b0[-1]]
+            c = [s.var('u%dc%d_%d' % (u, r, d), round(self.rng.uniform(-2, 2), 3)) for r in range(N * nc) for d in range(self.dim)]
+            self.data[u] = (N, nc, b, c)
             self.emit_update('pp.update', 'P', u)
             self.state['P'] = u
         elif o == 'Ub':
@@ -193,8 +208,8 @@ def run_task(t):
             fs = []
             for u, (N_, nc_, b, c) in g.data.items():
                 for i in range(N_):
-                    if ('u%db%d' % (u, i)) in enc.dag.varid and ('u%db%d' % (u, i + 1)) in enc.dag.varid:
-                        fs.append(enc.var('u%db%d' % (u, i)) < enc.var('u%db%d' % (u, i + 1)))
+                    if b[i] in enc.dag.varid and b[i + 1] in enc.dag.varid:
+                        fs.append(enc.var(b[i]) < enc.var(b[i + 1]))
             return fs
         ex = P.Explorer(tu, g.s, assume, max_paths=64, timeout=5, nonlinear=True, budget_s=60)
         npath = 0
@@ -212,6 +227,9 @@ def run_task(t):
                 sc.int_eq('%s initialised' % obj, 'M%s.init' % obj, 1)
                 sc.int_eq('%s segment count' % obj, 'M%s.nseg' % obj, N_)
                 sc.int_eq('%s coefficient count' % obj, 'M%s.ncoef' % obj, nc_)
+                sc.int_eq('%s breakpoint count' % obj, 'M%s.nbp' % obj, N_ + 1)
+                for key in ['bp.%d' % i for i in range(N_ + 1)] + ['start', 'end', 'dur']:
+                    sc.uf_eq('%s %s == fresh object from the data it must reflect' % (obj, key), 'M%s.%s' % (obj, key), 'M%s.%s' % (f, key))
                 for k in sorted({0, 1, 2, nc_ - 1, nc_}):
                     for i in range(N_):
                         for d in range(dim):
